@@ -24,11 +24,13 @@ ASSUMPTIONS = ['pandas: ffill/bfill(limit), fillna(value, limit), boolean-mask s
                'nona(value != nan) are not modelled; limit=0 (outside the quantifier) is not generated',
                'input immutability: proved on the object store PygModel/FillAlias.lean under the assumption, observed by snapshot on every line, that pandas ffill / fillna / bfill / boolean selection / .loc / concat return new objects',
                'input immutability seen from the RESULT (review t4 2.1): on every line and in the laws every cell of the result is overwritten and the argument compared with its snapshot '
-               '(a writable numpy view of the argument is a finding - C12-E2, repaired); `res is x` for an empty method list and read-only results are skipped. The store model covers `_df_fillna` only, not `_nona`',
-               'not modelled, not generated: 2-d inputs WITHOUT columns ((n, 0) arrays, `pd.DataFrame(index=idx)`) - probed: ffill_na / ffill_0 raise "ValueError: No objects to concatenate" '
-               '(pd.concat of zero columns), every other method answers; the wire cannot carry the row count of a frame without columns; `edge` values other than None / 1 / -1 '
-               '(outside the docstring; code and model: None / err Other, for arrays as for pandas objects since 002fba9), bool methods (is_num(True))',
-               "round k4: `_nona` is in the store model too (FillAlias.nonaPd / nonaArrS, cells record whose buffer they share): assumed and sampled by the overwrite check - boolean-mask selection and np.isnan own their data, a pandas .loc[a:b] result never writes through (copy-on-write), a numpy basic slice is a view, .copy() is not. 2-d inputs WITHOUT columns are generated since round k4 (fillna-df0 / fillna-a0 / nona-df0; defect C12-E4 fixed), so the entry above that calls them 'not modelled, not generated' holds only for float16 / 0-d arrays (pandas raises 'No matching signature' / AttributeError: low, undeclared before)"]
+               '(a writable numpy view of the argument is a finding - C12-E2, repaired); `res is x` for an empty method list and read-only results are skipped. The store model covers `_df_fillna` and, since round k4, `_nona` (FillAlias.nonaPd / nonaArrS)',
+               '2-d inputs WITHOUT columns ((n, 0) arrays, `pd.DataFrame(index=idx)`) are generated since round k4 (ops fillna-df0 / fillna-a0 / nona-df0: the reply carries the labels / '
+               'the row count, the result must have no column; ffill_na / ffill_0 raised "ValueError: No objects to concatenate" there - defect C12-E4, repaired 0bb3a3a). Not modelled, not generated: '
+               '`edge` values other than None / 1 / -1 (outside the docstring; code and model: None / err Other, for arrays as for pandas objects since 002fba9), bool methods (is_num(True)), '
+               'float16 and 0-d arrays (pandas raises "No matching signature" / AttributeError)',
+               'the `_nona` store (cells record whose buffer they share) assumes, and the overwrite check samples on every nona line: boolean-mask selection and np.isnan own their data, '
+               'a pandas .loc[a:b] result never writes through (copy-on-write), a numpy basic slice is a view, .copy() is not']
 S = 4
 METHODS = ['ffill', 'bfill', 'backfill', 'ffill_na', 'ffill_0', 'fnna', 'nona', 'c:0', 'c:6', 'c:-3', 'c:4']
 VALS = [1.0, 2.0, 0.0, -1.5, 0.25, 3.0, 7.75, -4.0]
